@@ -559,3 +559,142 @@ impl G<'_> {
         }
     }
 }
+
+// ------------------------------------------------------------------------------------------------
+// Dedicated shapes (mixed into the stream by `plan gen`)
+
+/// Function definitions written after a `return` / `comot` / `next` of their block — unreachable
+/// as statements ("dead code"), yet callable, because definitions are hoisted when the block is
+/// entered — that ARE called: from reachable statements of the same block, from nested blocks and
+/// loops, from another hoisted function, recursively.  A plan that drops such a definition makes
+/// the pruned run fail in the function lookup.
+pub fn hoisted_after_dead(rng: &mut Rng) -> String {
+    let mut o = String::new();
+    let mut id = 0usize;
+    let scenarios = 1 + rng.below(3);
+    for _ in 0..scenarios {
+        id += 1;
+        let f = format!("a{id}");
+        let h = format!("h{id}");
+        let g = format!("g{id}");
+        let c = rng.below(40);
+        let a = 1 + rng.below(4);
+        let op = *rng.pick(&["add", "times", "minus"]);
+        match rng.below(9) {
+            0 => {
+                // function body: call before the `return`, definition after it
+                o.push_str(&format!("do {f}(x) start\nmake r get {h}(x) add 1\nreturn r\ndo {h}(y) start return y {op} {c} end\nend\nshout({f}({a}))\n"));
+            }
+            1 => {
+                // called from a nested `if` block and a loop of the body
+                o.push_str(&format!(
+                    "do {f}(x) start\nmake t get 0\nif to say (x pass 0) start t get {h}(x) end\nmake i{id} get 0\njasi (i{id} small pass 2) start i{id} get i{id} add 1 t get t add {h}(i{id}) end\nreturn t\ndo {h}(y) start return y {op} {c} end\nend\nshout({f}({a}))\nshout({f}(0))\n"));
+            }
+            2 => {
+                // definition after the `return` of a NESTED block, called earlier in that block
+                o.push_str(&format!(
+                    "do {f}(x) start\nif to say (x pass 0) start\nmake t get {h}(x)\nreturn t add 1\ndo {h}(y) start return y {op} {c} end\nend\nreturn 0\nend\nshout({f}({a}))\nshout({f}(0))\n"));
+            }
+            3 => {
+                // top-level loop body: definition after `next` / `comot`
+                let leave = if rng.chance(1, 2) { "next" } else { "comot" };
+                o.push_str(&format!(
+                    "make i{id} get 0\nmake s{id} get 0\njasi (i{id} small pass 3) start\ni{id} get i{id} add 1\ns{id} get s{id} add {h}(i{id})\n{leave}\ndo {h}(y) start return y {op} {c} end\nend\nshout(s{id})\n"));
+            }
+            4 => {
+                // called from another hoisted function that is defined before the `return`
+                o.push_str(&format!(
+                    "do {f}(x) start\ndo {g}(y) start return {h}(y) add 1 end\nreturn {g}(x)\ndo {h}(z) start return z {op} {c} end\nend\nshout({f}({a}))\n"));
+            }
+            5 => {
+                // bare block inside a function
+                o.push_str(&format!(
+                    "do {f}(x) start\nstart\nshout({h}(x))\nreturn 1\ndo {h}(y) start return y {op} {c} end\nend\nreturn 0\nend\nshout({f}({a}))\n"));
+            }
+            6 => {
+                // recursive function defined after the `return`
+                o.push_str(&format!(
+                    "do {f}(x) start\nreturn {g}(x)\ndo {g}(n) start if to say (n small pass 1) start return {c} end return n add {g}(n minus 1) end\nend\nshout({f}({a}))\n"));
+            }
+            7 => {
+                // after an `if` whose branches both return; the callee reads a variable declared before the call
+                o.push_str(&format!(
+                    "do {f}(x) start\nmake b get {c}\nmake r get {h}(x)\nif to say (x pass 0) start return r end if not so start return 0 minus r end\ndo {h}(y) start return y {op} b end\nend\nshout({f}({a}))\nshout({f}(0))\n"));
+            }
+            _ => {
+                // controls: a dead definition nobody calls, and one called only from dead code
+                o.push_str(&format!(
+                    "do {f}(x) start\nreturn x add {c}\ndo {h}(y) start return y end\nshout({g}(1))\ndo {g}(z) start return z end\nend\nshout({f}({a}))\n"));
+            }
+        }
+    }
+    o
+}
+
+/// Functions and scripts with 33–140 locals (parameters, variables, the locals of a nested function
+/// in between) and store / store / read patterns between locals whose indices differ by 32 and 64:
+/// what a liveness bit set indexed modulo the wrong word size gets wrong.
+pub fn many_locals(rng: &mut Rng) -> String {
+    let n = 33 + rng.below(108) as usize;
+    let in_fn = rng.chance(1, 2);
+    let nparams = if in_fn { rng.below(4) as usize } else { 0 };
+    let nested_at = if rng.chance(1, 2) { Some(nparams + rng.below((n - nparams) as u64) as usize) } else { None };
+    let mut o = String::new();
+    // accessible locals by local index (None: a local of the nested function)
+    let mut ids: Vec<Option<String>> = vec![];
+    if in_fn {
+        let ps: Vec<String> = (0..nparams).map(|k| format!("p{k}")).collect();
+        o.push_str(&format!("do big({}) start\n", ps.join(", ")));
+        for p in ps {
+            ids.push(Some(p));
+        }
+    }
+    let mut k = 0usize;
+    while ids.len() < n {
+        if Some(ids.len()) == nested_at {
+            let m = 1 + rng.below(5) as usize;
+            o.push_str("do inner(q) start\n");
+            ids.push(None);
+            for j in 0..m {
+                o.push_str(&format!("make w{j} get q add {j}\n"));
+                ids.push(None);
+            }
+            o.push_str("return w0\nend\n");
+            continue;
+        }
+        o.push_str(&format!("make v{k} get {k}\n"));
+        ids.push(Some(format!("v{k}")));
+        k += 1;
+    }
+    let npat = 2 + rng.below(5);
+    for _ in 0..npat {
+        let dist = if ids.len() > 64 && rng.chance(1, 3) { 64 } else { 32 };
+        let p = rng.below((ids.len() - dist) as u64) as usize;
+        let (a, b) = match (&ids[p], &ids[p + dist]) {
+            (Some(a), Some(b)) => (a.clone(), b.clone()),
+            _ => continue,
+        };
+        let c1 = 100 + rng.below(100);
+        let c2 = 200 + rng.below(100);
+        match rng.below(4) {
+            0 => o.push_str(&format!("{a} get {c1}\n{b} get {c2}\nshout({a})\n")),
+            1 => o.push_str(&format!("{b} get {c1}\n{a} get {c2}\nshout({b})\n")),
+            2 => o.push_str(&format!("{a} get {c1}\n{b} get {c2}\nshout({a} add {b})\n")),
+            _ => o.push_str(&format!("{a} get {c1}\n{a} get {c2}\n{b} get {c1}\nshout({a})\nshout({b})\n")),
+        }
+    }
+    o.push_str("make acc get 0\n");
+    for id in ids.iter().flatten() {
+        o.push_str(&format!("acc get acc add {id}\n"));
+    }
+    if nested_at.is_some() {
+        o.push_str("acc get acc add inner(1)\n");
+    }
+    if in_fn {
+        let args: Vec<String> = (0..nparams).map(|k| format!("{}", k + 1)).collect();
+        o.push_str(&format!("return acc\nend\nshout(big({}))\n", args.join(", ")));
+    } else {
+        o.push_str("shout(acc)\n");
+    }
+    o
+}
